@@ -30,6 +30,9 @@ structure Dev where
   emptyNamed : Bool := false
   orStrict : Bool := false
   ebvStrict : Bool := false
+  inStrict : Bool := false
+  ifEbvFalse : Bool := false
+  existsSwallow : Bool := false
   deriving Repr, DecidableEq, Inhabited
 
 def ebvD (d : Dev) (t : Term) : Option Bool :=
@@ -57,6 +60,25 @@ def evalExprD (d : Dev) (μ : Mu) : Expr → Option Term
   | .not a => do let x ← evalExprD d μ a; let v ← ebvD d x; pure (boolTerm (!v))
   | .bound x => some (boolTerm (μ.get (.var x)).isSome)
   | .call f a => do let x ← evalExprD d μ a; callFunc f x
+  | .cmp op a b => do let x ← evalExprD d μ a; let y ← evalExprD d μ b; (opOrd x y).map (fun o => boolTerm (op.test o))
+  | .arith op a b => do let x ← evalExprD d μ a; let y ← evalExprD d μ b; opArith op x y
+  | .neg a => do let x ← evalExprD d μ a; opNeg x
+  | .pos a => do let x ← evalExprD d μ a; opPos x
+  | .ite c t e => do
+    let x ← evalExprD d μ c
+    if d.ifEbvFalse then (if (ebvD d x).getD false then evalExprD d μ t else evalExprD d μ e)
+    else do
+      let v ← ebvD d x
+      if v then evalExprD d μ t else evalExprD d μ e
+  | .inl a e rest =>
+    if d.inStrict then do
+      let x ← evalExprD d μ a
+      let r := (evalExprD d μ e).bind (fun y => opEq x y)
+      if r != some false then r.map boolTerm else evalExprD d μ rest
+    else
+      (or3 (do let x ← evalExprD d μ a; let y ← evalExprD d μ e; opEq x y) ((evalExprD d μ rest).bind (ebvD d))).map boolTerm
+  | .coalesce a rest => (evalExprD d μ a).or (evalExprD d μ rest)
+  | .err => none
 
 def holdsD (d : Dev) (e : Expr) (μ : Mu) : Bool := ((evalExprD d μ e).bind (ebvD d)) == some true
 
@@ -64,6 +86,7 @@ def holdsD (d : Dev) (e : Expr) (μ : Mu) : Bool := ((evalExprD d μ e).bind (eb
 def varsD (d : Dev) : GP → List Str → List Str
   | .bgp ps, sk => sk ++ ps.flatMap TP.vars
   | .filter _ p, sk => varsD d p sk
+  | .filterExists _ _ p, sk => varsD d p sk
   | .union l r, sk => varsD d l sk ++ varsD d r sk
   | .graph (.var x) p, sk =>
     if d.graphPrebind then (if sk.contains x then varsD d p sk else varsD d p (x :: sk))
@@ -88,9 +111,16 @@ def evalD (d : Dev) (D : List Quad) : GP → Graph → Mu → Except Err (List M
   | .filter e p, G, seed => do
     let Ω ← evalD d D p G seed
     pure (Ω.filter (holdsD d e))
+  | .filterExists neg pat p, G, seed => do
+    let Ω ← evalD d D p G seed
+    let keep ← Ω.mapM (fun μ =>
+      match evalD d D pat G μ with
+      | .ok r => Except.ok ((!r.isEmpty) != neg)
+      | .error e => if d.existsSwallow then Except.ok neg else Except.error e)
+    pure ((Ω.zip keep).filterMap (fun x => if x.2 then some x.1 else none))
   | .graph (.iri n) p, _, seed => evalD d D p (namedGraph D (.iri n)) seed
   | .graph (.var x) p, _, seed =>
-    match (if d.graphPrebind then seed.get (.var x) else none) with
+    match seed.get (.var x) with
     | some n => evalD d D p (namedGraph D n) seed
     | none =>
       let names := graphNames D
@@ -132,18 +162,33 @@ def evalQueryD (d : Dev) (D : List Quad) : Query → Answer
       | .ok Ω => .bool (!Ω.isEmpty)
       | .error e => .err e
     else .err .unsupported
+  | .select (some ⟨froms, none⟩) p =>
+    if inFragment p then
+      match evalD d (fromDataset D froms) p (defaultGraph (fromDataset D froms)) [] with
+      | .ok Ω => .rows (varsD d p []) Ω
+      | .error e => .err e
+    else .err .unsupported
+  | .ask (some ⟨froms, none⟩) p =>
+    if inFragment p then
+      match evalD d (fromDataset D froms) p (defaultGraph (fromDataset D froms)) [] with
+      | .ok Ω => .bool (!Ω.isEmpty)
+      | .error e => .err e
+    else .err .unsupported
   | _ => .err .unsupported
 
 /-- all deviation sets, smallest first, with their names -/
 def Dev.names (d : Dev) : List String :=
   (if d.projLeak then ["projLeak"] else []) ++ (if d.graphPrebind then ["graphPrebind"] else []) ++
   (if d.emptyNamed then ["emptyNamed"] else []) ++ (if d.orStrict then ["orStrict"] else []) ++
-  (if d.ebvStrict then ["ebvStrict"] else [])
+  (if d.ebvStrict then ["ebvStrict"] else []) ++ (if d.inStrict then ["inStrict"] else []) ++
+  (if d.ifEbvFalse then ["ifEbvFalse"] else []) ++ (if d.existsSwallow then ["existsSwallow"] else [])
 
 def Dev.all : List Dev :=
   let bs := [false, true]
-  let l := bs.flatMap fun a => bs.flatMap fun b => bs.flatMap fun c => bs.flatMap fun e => bs.map fun f =>
-    ({ projLeak := a, graphPrebind := b, emptyNamed := c, orStrict := e, ebvStrict := f } : Dev)
+  let l := bs.flatMap fun a => bs.flatMap fun b => bs.flatMap fun c => bs.flatMap fun e => bs.flatMap fun f =>
+    bs.flatMap fun g => bs.flatMap fun h => bs.map fun i =>
+    ({ projLeak := a, graphPrebind := b, emptyNamed := c, orStrict := e, ebvStrict := f,
+       inStrict := g, ifEbvFalse := h, existsSwallow := i } : Dev)
   l.mergeSort (fun x y => x.names.length ≤ y.names.length)
 
 end SophiaModel.SparqlDev
